@@ -1,7 +1,7 @@
 \* every mutator (full alphabet) applied to every representative content; contract invariants
 CONSTANTS
     Depth = 1
-    Seeds = {"empty", "vp", "vpr", "vpd", "vpdyn", "iap", "iav", "vv", "named", "dyn", "sur", "surd", "data", "dataia", "ro"}
+    Seeds = {"empty", "vp", "vpr", "vpd", "vpdyn", "iap", "iav", "vv", "named", "dyn", "sur", "surd", "data", "dataia", "ro", "dangle"}
     OpSet = "all"
     EmitOn = TRUE
 INIT Init
